@@ -860,15 +860,25 @@ fn stress_leg(report: &Report, args: &Args) {
         .enable_all()
         .build()
         .expect("runtime");
-    let rounds = args.tier.pick(4, 40);
-    let reps = args.tier.pick(1, 6);
+    let rounds = args.tier.pick(4, 12);
+    let reps = args.tier.pick(1, 50);
+    // the stress leg may use at most a fifth of the budget; the gated races are the main leg
+    let cap = report.budget_s() as f64 * 0.2;
     rt.block_on(async {
-        for rep in 0..reps {
+        'outer: for rep in 0..reps {
             for h in [HandlerKind::CondPut, HandlerKind::Rename, HandlerKind::Lock, HandlerKind::External] {
+                if rep > 0 && report.elapsed_s() > cap {
+                    break 'outer;
+                }
                 stress_memory(report, h, 12, rounds, rep).await;
             }
-            stress_local(report, false, 12, rounds, rep).await;
-            stress_local(report, true, 12, rounds, rep).await;
+            for rename in [false, true] {
+                if rep > 0 && report.elapsed_s() > cap {
+                    break 'outer;
+                }
+                stress_local(report, rename, 12, rounds, rep).await;
+            }
+            report.count("stress_repetitions", 1);
         }
     });
 }
